@@ -1049,39 +1049,66 @@ func (x *runner) waitFor(cond func() bool, watchdog time.Duration) bool {
 	return true
 }
 
-var reGoroutineHdr = regexp.MustCompile(`^goroutine \d+ \[([a-zA-Z. ]+), (\d+) minutes\]:$`)
+var reGoroutineHdr = regexp.MustCompile(`^goroutine (\d+) \[([a-zA-Z. ]+), (\d+) minutes\]:$`)
 
-// mutexHang: called when the quiescence barrier did not come back. A goroutine of the service that has been waiting for a
-// sync.Mutex / sync.RWMutex for two minutes or more, with a function of the repository on its stack, is not load: the
-// barrier itself goes through the service's message loops, and one of them is stuck behind a lock nobody gives back.
-// Polls for up to 80 s (the dump counts whole minutes).
-func (x *runner) mutexHang() (site, goroutine string) {
-	for w := 0; w < 17; w++ {
-		buf := make([]byte, 8<<20)
-		dump := string(buf[:runtime.Stack(buf, true)])
-		for _, g := range strings.Split(dump, "\n\n") {
-			lines := strings.Split(g, "\n")
-			m := reGoroutineHdr.FindStringSubmatch(lines[0])
-			if m == nil {
-				continue
-			}
-			if mins, _ := strconv.Atoi(m[2]); mins < 2 {
-				continue
-			}
-			if !strings.Contains(g, "sync.(*Mutex).Lock") && !strings.Contains(g, "sync.(*RWMutex).Lock") && !strings.Contains(g, "sync.(*RWMutex).RLock") {
-				continue
-			}
-			for _, l := range lines[1:] {
-				if strings.HasPrefix(l, "\t") || !strings.Contains(l, "block-headers-service/") || strings.Contains(l, "verifharness") {
-					continue
-				}
-				if i := strings.LastIndex(l, "("); i > 0 {
-					l = l[:i]
-				}
-				return l[strings.Index(l, "block-headers-service/")+len("block-headers-service/"):], g
-			}
+// mutexWaiters: goroutines of the service (a function of the repository on the stack) that the runtime reports as waiting
+// for a sync.Mutex / sync.RWMutex for a minute or more. The runtime counts from the first garbage collection after the wait
+// began, so the figure is a lower bound.
+func mutexWaiters() map[string][2]string {
+	out := map[string][2]string{}
+	buf := make([]byte, 8<<20)
+	dump := string(buf[:runtime.Stack(buf, true)])
+	if f := os.Getenv("VERIF_DEBUG_DUMP"); f != "" {
+		_ = os.WriteFile(f, []byte(dump), 0o644)
+	}
+	for _, g := range strings.Split(dump, "\n\n") {
+		lines := strings.Split(g, "\n")
+		m := reGoroutineHdr.FindStringSubmatch(lines[0])
+		if m == nil {
+			continue
 		}
-		time.Sleep(5 * time.Second)
+		if mins, _ := strconv.Atoi(m[3]); mins < 1 {
+			continue
+		}
+		if !strings.Contains(g, "sync.(*Mutex).Lock") && !strings.Contains(g, "sync.(*RWMutex).Lock") && !strings.Contains(g, "sync.(*RWMutex).RLock") {
+			continue
+		}
+		for _, l := range lines[1:] {
+			if strings.HasPrefix(l, "\t") || !strings.Contains(l, "block-headers-service/") || strings.Contains(l, "verifharness") {
+				continue
+			}
+			if i := strings.LastIndex(l, "("); i > 0 {
+				l = l[:i]
+			}
+			out[m[1]] = [2]string{l[strings.Index(l, "block-headers-service/")+len("block-headers-service/"):], g}
+			break
+		}
+	}
+	return out
+}
+
+// mutexHang: called when the quiescence barrier (60 s) did not come back. If the same goroutine of the service is found
+// waiting for the same mutex in two looks 40 s apart - each time reported by the runtime as waiting for a minute or more -
+// it is not load: the barrier goes through the service's message loops, and one of them is stuck behind a lock that nobody
+// gives back.
+func (x *runner) mutexHang() (site, goroutine string) {
+	var first map[string][2]string
+	for w := 0; w < 8 && len(first) == 0; w++ {
+		runtime.GC()
+		first = mutexWaiters()
+		if len(first) == 0 {
+			time.Sleep(10 * time.Second)
+		}
+	}
+	if len(first) == 0 {
+		return "", ""
+	}
+	time.Sleep(40 * time.Second)
+	second := mutexWaiters()
+	for id, a := range first {
+		if b, ok := second[id]; ok && a[0] == b[0] {
+			return b[0], b[1]
+		}
 	}
 	return "", ""
 }
@@ -1093,7 +1120,7 @@ func (x *runner) quiesce(stage string) bool {
 				g = g[:3000]
 			}
 			x.res.Panic = g
-			x.fail("hang|mutex|"+site, fmt.Sprintf("the service stopped answering at: %s; one of its goroutines has been waiting for a mutex in %s for two minutes or more", stage, site))
+			x.fail("hang|mutex|"+site, fmt.Sprintf("the service stopped answering at: %s; one of its goroutines has been waiting for a mutex in %s ever since (seen twice, 40 s apart, after the 60 s barrier watchdog)", stage, site))
 			return false
 		}
 		x.res.Verdict = "inconclusive"
